@@ -8,6 +8,7 @@ import (
 	"runtime"
 	"strings"
 	"sync"
+	"sync/atomic"
 	"testing"
 	"time"
 
@@ -220,6 +221,9 @@ func checkC19(c c19Case, rec *Rec) *Violation {
 	if v := c19ConcurrentLoadThenFault(c, oracle, rec); v != nil {
 		return v
 	}
+	if v := c19FaultWhileLoading(c, oracle, rec); v != nil {
+		return v
+	}
 	if nontrivial {
 		rec.NonTrivial(fmt.Sprintf("%x", hash64(fmt.Sprint(c))), map[string]any{"lists": c.Lists, "queries": c.Queries, "fault_points": 2 * (n + 1)})
 	}
@@ -366,6 +370,104 @@ func c19ConcurrentLoadThenFault(c c19Case, oracle []map[string]bool, rec *Rec) *
 		}
 	}
 	rec.Label("concurrent-load-then-fault")
+	return nil
+}
+
+// c19FaultWhileLoading: four goroutines ask all questions on a cold cache.  One
+// of them is held at the library's yield point right after a cache miss (before
+// the list is read); the others finish, so the rule it wanted has meanwhile been
+// loaded and returned by them; then the storage is closed and the held goroutine
+// goes on — its read fails.  A rule counts as "returned before the fault" only if
+// the query that returned it had finished before the fault was applied.
+// Afterwards the questions are asked one by one: those rules must still be served.
+func c19FaultWhileLoading(c c19Case, oracle []map[string]bool, rec *Rec) *Violation {
+	const id = "C19"
+	if len(c.Queries) < 3 {
+		return nil
+	}
+	en, _, cleanup, err := c19Engines(c.Lists)
+	if err != nil {
+		return viol(id, "C19:harness", "storage: %v", err)
+	}
+	defer cleanup()
+	var faulted, parked atomic.Bool
+	var misses, finished atomic.Int64
+	release := make(chan struct{})
+	parkAt := int64(1 + hash64(fmt.Sprint(c.Queries))%8)
+	c14HookMu.Lock()
+	setYieldHooks(func(point string) {
+		if point == "storage-cache-miss" && !faulted.Load() && misses.Add(1) == parkAt && parked.CompareAndSwap(false, true) {
+			<-release // held between the cache miss and the read until the fault has happened
+			return
+		}
+		runtime.Gosched()
+	})
+	const G = 4
+	var mu sync.Mutex
+	seen := map[string]bool{}
+	var wg sync.WaitGroup
+	panics := make([]any, G)
+	for g := 0; g < G; g++ {
+		wg.Add(1)
+		go func(g int) {
+			defer wg.Done()
+			defer finished.Add(1)
+			defer func() { panics[g] = recover() }()
+			for k := range c.Queries {
+				i := (k + g*len(c.Queries)/G) % len(c.Queries)
+				before := faulted.Load()
+				got := en.resultSet(c.Queries[i])
+				if !before && !faulted.Load() {
+					mu.Lock()
+					for x := range got {
+						if oracle[i][x] {
+							seen[x] = true
+						}
+					}
+					mu.Unlock()
+				}
+			}
+		}(g)
+	}
+	deadline := time.Now().Add(c19QueryDeadline)
+	for {
+		f := finished.Load()
+		if f == G || (parked.Load() && f == G-1) {
+			break
+		}
+		if time.Now().After(deadline) {
+			faulted.Store(true)
+			close(release)
+			setYieldHooks(nil)
+			c14HookMu.Unlock()
+			return viol(id, "C19:query-does-not-return-after-fault", "%d goroutines loading rules on a cold cache (one held at a yield point) did not finish within %v", G, c19QueryDeadline)
+		}
+		time.Sleep(200 * time.Microsecond)
+	}
+	faulted.Store(true)
+	_ = en.st.Close()
+	close(release)
+	wg.Wait()
+	setYieldHooks(nil)
+	c14HookMu.Unlock()
+	for g, p := range panics {
+		if p != nil {
+			return viol(id, "C19:panic-after-fault", "storage closed while a goroutine was between cache miss and read, goroutine %d: panic: %v", g, p)
+		}
+	}
+	for i, q := range c.Queries {
+		got := en.resultSet(q)
+		for x := range oracle[i] {
+			if seen[x] && !got[x] {
+				return viol(id, "C19:materialised-rule-lost:fault-while-loading", "storage closed while one of %d goroutines was between a cache miss and the read of a rule that the others had meanwhile loaded: rule %q was returned by a query that finished before the fault and matches %+v, but is not served afterwards", G, x, q)
+			}
+		}
+	}
+	if parked.Load() {
+		rec.Label("fault-while-loading:one-goroutine-held")
+	} else {
+		rec.Label("fault-while-loading:nobody-held")
+	}
 	return nil
 }
 
